@@ -32,7 +32,7 @@ FEATS = ['unconn_in', 'unconn_out', 'ff_no_d', 'out_read', 'wiring', 'consts']
 
 def plan(tier, seed):
     q = tier == 'quick'
-    return [{'n': 40 if q else 700} for _ in range(16)]
+    return [{'n': 150 if q else 3000} for _ in range(16)]
 
 
 def conclude(agg):
